@@ -8,6 +8,7 @@ Overflow is not modelled (see `Model/Num.lean`), so only lower bounds (normal ra
 -/
 import N2k.Model.Codec
 import N2k.Lemmas.F64
+import N2k.Lemmas.Dec01
 namespace N2k.Dec01F
 open N2k
 
@@ -284,7 +285,8 @@ theorem decodeNumber_total_float (data off len : Nat) (signed : Bool) (res mn mx
     (h1 : mn.exact ≤ (z : Rat) * res.exact) (h2 : (z : Rat) * res.exact ≤ mx.exact) :
     decodeNumber data off len signed res mn mx (Lit.ofInt 0) =
       .ok (some (.flt (rne (rne (z : Rat) * res.val)))) := by
-  simp only [decodeNumber]
+  -- no Offset: the effective signedness is the database flag
+  simp only [Dec01.decodeNumber_eff, Dec01.effSigned_zero]
   rw [← hz]
   have hval : res.val = rne res.exact := by unfold Lit.val; rw [if_pos hf]
   have hcov := tol_covers z res.exact (exact_ge res hpos hres)
